@@ -739,6 +739,33 @@ def check_cbor_tag_flags(chk, tier):
                 chk.fail(rid, site, fn['file'], fn['l'], 'basic_cbor_parser::reset leaves the pending tag flags `%s` as they are: after an input that ended (or failed) between a tag and its item, '
                          'the first item of the next input is decoded as if it carried that tag' % m, None, fn['q'])
 
+def check_adaptor_levels(chk, tier, rid='R07.adaptor'):
+    """The visitor adaptors that sit between a binary parser and its consumer (non-string map keys are turned into text) count every item."""
+    from .. import cfg as C
+    chk.rule(rid, 'item bookkeeping of the visitor adaptors (generic_visitor.hpp): a visit_* that advances the current level '
+                  '(`level_stack_.back().advance()`) does so on every path to its normal return; an item that is handed on without being '
+                  'counted leaves the key/value parity of the enclosing map one off, and everything after it is decoded under the wrong role', floor=15)
+    facts = F.load(['core'], tier)
+    if 'core' not in chk.units: chk.units.append('core')
+    n = 0
+    # the adaptors are class templates that the drivers do not instantiate by themselves: the template bodies are analysed (the statements and
+    # the control flow are those of every instantiation)
+    cand = sorted([f for f in facts.functions if f.get('body') is not None and f['file'].endswith('generic_visitor.hpp') and f['n'].startswith('visit_')], key=lambda f: bool(f.get('dep')))
+    for fn in U.one_per_inst(cand):
+        adv = [c for c in A.calls_in(fn['body'], no_lambda=True) if A.callee_name(c) == 'advance' and 'level_stack_' in A.text(c)]
+        if not adv: continue
+        n += 1
+        chk.analysed(fn)
+        g = C.CFG(fn['body'])
+        nodes = [nd for nd in g.rpo if nd.kind in ('stmt', 'cond', 'return') and isinstance(nd.ast, dict) and any(any(y is c for y in A.walk(nd.ast)) for c in adv)]
+        leak = g.can_reach(g.entry, [g.exit_return], avoid=nodes)
+        site = U.site(fn, 'advance on every path')
+        if not leak: chk.ok(rid, site, {'function': fn['q'], 'advance_calls': len(adv)} if n % 5 == 1 else None)
+        else:
+            chk.fail(rid, site, fn['file'], fn['l'], '%s::%s can return without level_stack_.back().advance(), which its other paths perform: the item is delivered but not counted' % (
+                A.strip_targs(fn.get('cls') or '').split('::')[-1], fn['n']), None, fn['q'])
+    chk.require(n >= 15, '%s: only %d advancing visit functions found in generic_visitor.hpp' % (rid, n))
+
 def run(chk, tier, only_rule=None):
     chk.explanation = EXPLANATION
     chk.not_decided = NOT_DECIDED
@@ -748,6 +775,7 @@ def run(chk, tier, only_rule=None):
     check_bson(chk, tier)
     check_bson_size(chk, tier)
     check_cbor_tag_flags(chk, tier)
+    check_adaptor_levels(chk, tier)
     check_decimal128_fields(chk, tier)
     from . import c15
     for u_ in ('cbor', 'msgpack', 'ubjson', 'bson'):
